@@ -31,5 +31,5 @@ def length_contract(S, st, args, dim, esz):
         return Rat(Fraction(r, q.denominator) if r * r == q.numerator * q.denominator else Fraction(math.sqrt(float(q))))
     y = S.newreal('len')
     st.pc += [y >= 0, y * y * l2.d == l2.n]
-    S.witnesses.append((l2, y))
+    st.wit.append((l2, y))
     return Rat(y)
